@@ -157,9 +157,16 @@ def run_shard(spec):
                     except (oracle.ReportParseError, ValueError, IndexError, KeyError) as e:
                         detail["error"] = str(e)[:200]
                         sh.violation("unparsable_report", tuple(o for o in opts if o.startswith("-")), case, detail)
-            # inline content vs the same content on disk
+            # inline content vs the same content on disk (also content that does not end in a newline)
             flag = "--cfile" if name.endswith(".c") else "--hfile"
-            for with_name in (True, False):
+            full_src = src
+            for with_name, src in ((True, full_src), (False, full_src), (True, full_src.rstrip("\n")), (True, full_src + "\n")):
+                if src != full_src:
+                    with open(os.path.join(d, name), "w") as f:
+                        f.write(src)
+                    ref = child_obs(cliobs.run_cli([name], cwd=d), name)
+                    if ref is None:
+                        continue
                 inl_name = name if with_name else ("file.c" if flag == "--cfile" else "file.h")
                 if not with_name:
                     # the on-disk twin must carry the default name (header guard / 42 header follow the name)
